@@ -1136,7 +1136,15 @@ func (d *DNSFilter) updatesLoop() {
 func (d *DNSFilter) periodicallyRefreshFilters(ivl time.Duration) (nextIvl time.Duration) {
 	const maxInterval = time.Hour
 
-	if d.conf.FiltersUpdateIntervalHours == 0 {
+	var updIvlHours uint32
+	func() {
+		d.conf.filtersMu.RLock()
+		defer d.conf.filtersMu.RUnlock()
+
+		updIvlHours = d.conf.FiltersUpdateIntervalHours
+	}()
+
+	if updIvlHours == 0 {
 		return ivl
 	}
 
